@@ -1,7 +1,7 @@
 """Driver shared by C13 / C14 / C15: introspection of jesse.indicators, candle series on an integer lattice,
 parameter variants, evaluation in forked workers (numba JIT dominates: one worker compiles an indicator once),
 integer logging of float series for TLC.  Nothing here judges: it produces *inputs* and *recorded outputs*."""
-import inspect, math, os, random, multiprocessing, traceback
+import inspect, math, os, random, multiprocessing, traceback, zlib
 # numba kernels do not check array bounds: with an input shorter than a period parameter several of jesse's kernels
 # write outside their arrays (heap corruption, "free(): invalid pointer").  Bounds checking turns that undefined
 # behaviour into an IndexError, which the drivers record as "raised on this input" (must be set before numba is imported).
@@ -151,12 +151,20 @@ def real_series(n, seed, start=100.0, vol=0.004):
 
 
 def build_series(spec):
+    """spec = (kind, n, seed[, scale[, "jitter"]]).  The jittered twin of a series multiplies every price and volume by
+    1 + 1e-6 * u (u uniform in [-1, 1], reproducible): same shape, but no exact ties between candles any more."""
     kind, n, seed = spec[0], spec[1], spec[2]
     scale = spec[3] if len(spec) > 3 else 1.0
     c = real_series(n, seed) if kind == "real" else make_series(kind, n, seed)
     if scale != 1.0:
         c = c.copy()
         c[:, 1:6] *= scale          # powers of two keep the lattice exact
+    if len(spec) > 4 and spec[4] == "jitter":
+        rng = np.random.default_rng(zlib.crc32(("%s-%d-%d" % (kind, n, seed)).encode()))
+        c = c.copy()
+        c[:, 1:6] *= 1.0 + 1e-6 * rng.uniform(-1.0, 1.0, size=(n, 5))
+        c[:, 3] = np.maximum(c[:, 3], np.maximum(c[:, 1], c[:, 2]))
+        c[:, 4] = np.minimum(c[:, 4], np.minimum(c[:, 1], c[:, 2]))
     return c
 
 
